@@ -167,16 +167,12 @@ Proof.
 Qed.
 
 (* ---------- legacy backend ---------- *)
-Lemma guard_old_or : forall x b, guard_old x b = true ->
-  no_noop_zero_write (n_st x) (b_diff b) = true \/ s_next (n_st x) = 0.
-Proof. unfold guard_old. intros. apply orb_true_iff in H. destruct H; auto. right. lia. Qed.
-
-Lemma c04_old_lemma : forall x b, NInv x -> valid_next x b = true -> guard_old x b = true ->
+Lemma c04_old_lemma : forall x b, NInv x -> valid_next x b = true ->
   exists x', revert_old_node (store_old_node x b) = Some x' /\ obs x' = obs x.
 Proof.
-  intros x b NI V G. apply valid_next_VNext in V. exists x. split; auto.
+  intros x b NI V. apply valid_next_VNext in V. exists x. split; auto.
   apply revert_store_node; auto.
-  apply revert_store_old; auto; [apply NI | apply V | apply guard_old_or; auto].
+  apply revert_store_old; auto; [apply NI | apply V].
 Qed.
 
 Lemma NInv_old_store : forall x b, NInv x -> valid_next x b = true -> NInv (store_old_node x b).
@@ -186,35 +182,21 @@ Proof.
   apply Inv_store_old; [apply NI | apply V].
 Qed.
 
-(* without the guard (and above genesis) the legacy RevertHead fails, leaving the node as it was *)
-Lemma c04_old_fails_lemma : forall x b, NInv x -> valid_next x b = true -> guard_old x b = false ->
-  revert_old_node (store_old_node x b) = None.
-Proof.
-  intros x b NI V G. apply valid_next_VNext in V. unfold guard_old in G. apply orb_false_iff in G. destruct G as [G1 G2].
-  unfold revert_old_node, store_old_node, revert_node, store_node.
-  cbn [n_st n_hdr n_num n_txs n_txidx n_l1 n_upd n_commit n_casm n_filter].
-  assert (En : s_next (store_old (n_st x) (b_diff b)) = s_next (n_st x) + 1) by reflexivity. rewrite En.
-  destruct (s_next (n_st x) + 1 =? 0) eqn:E; [lia|].
-  replace (s_next (n_st x) + 1 - 1) with (s_next (n_st x)) by lia.
-  rewrite !get_put, !keqb_refl.
-  rewrite revert_store_old_fails; auto; [apply NI | apply V | lia].
-Qed.
-
 (* ---------- forks ---------- *)
-Fixpoint all_valid (store : node -> block -> node) (guard : node -> block -> bool) (x : node) (A : list block) : Prop :=
+Fixpoint all_valid (store : node -> block -> node) (x : node) (A : list block) : Prop :=
   match A with
   | [] => True
-  | b :: A' => valid_next x b = true /\ guard x b = true /\ all_valid store guard (store x b) A'
+  | b :: A' => valid_next x b = true /\ all_valid store (store x b) A'
   end.
 
 Lemma repeat_shift : forall n (B : list nop), repeat NRevert n ++ NRevert :: B = NRevert :: repeat NRevert n ++ B.
 Proof. induction n; simpl; intros; auto. rewrite IHn. auto. Qed.
 
-Lemma fork_new_lemma : forall A B x, NInv_new x -> all_valid store_new_node (fun _ _ => true) x A ->
+Lemma fork_new_lemma : forall A B x, NInv_new x -> all_valid store_new_node x A ->
   nrun_new (map NStore A ++ repeat NRevert (length A) ++ B) x = nrun_new B x.
 Proof.
   induction A; simpl; intros; auto.
-  destruct H0 as [V [_ AV]]. unfold nrun_new in *. simpl. rewrite V.
+  destruct H0 as [V AV]. unfold nrun_new in *. simpl. rewrite V.
   replace (map NStore A ++ NRevert :: repeat NRevert (length A) ++ B)
     with (map NStore A ++ repeat NRevert (length A) ++ (NRevert :: B)).
   - rewrite IHA; auto using NInv_new_store. simpl.
@@ -226,18 +208,18 @@ Proof.
   - f_equal. apply repeat_shift.
 Qed.
 
-Lemma fork_old_lemma : forall A B x, NInv x -> all_valid store_old_node guard_old x A ->
+Lemma fork_old_lemma : forall A B x, NInv x -> all_valid store_old_node x A ->
   nrun_old (map NStore A ++ repeat NRevert (length A) ++ B) x = nrun_old B x.
 Proof.
   induction A; simpl; intros; auto.
-  destruct H0 as [V [G AV]]. unfold nrun_old in *. simpl. rewrite V.
+  destruct H0 as [V AV]. unfold nrun_old in *. simpl. rewrite V.
   replace (map NStore A ++ NRevert :: repeat NRevert (length A) ++ B)
     with (map NStore A ++ repeat NRevert (length A) ++ (NRevert :: B)).
   - rewrite IHA; auto using NInv_old_store. simpl.
     pose proof V as V'. apply valid_next_VNext in V.
     assert (revert_old_node (store_old_node x a) = Some x).
     { apply revert_store_node; auto.
-      apply revert_store_old; auto; [apply H | apply V | apply guard_old_or; auto]. }
+      apply revert_store_old; auto; [apply H | apply V]. }
     rewrite H0. auto.
   - f_equal. apply repeat_shift.
 Qed.
